@@ -897,11 +897,58 @@ def split_of_quoted_name(ctx, col: Collector, gm, rule: str, prefix: str, side: 
     idx = ctx.idx
     nodes = gm.nodes_with_action('parse_inline_relation') + gm.nodes_with_action('parse_ref')
     toks = [t for nd in nodes for t in gt.walk(nd) if t.name in ('field', 'field1', 'field2')]
-    rb = idx.func('pydbml.parser.blueprints', 'ReferenceBlueprint.build')
+    from .common import expanded as _expanded
+    rb = _expanded(ctx, 'pydbml.parser.blueprints', 'ReferenceBlueprint.build', keep_extra=('locate_table',))
     splits = [c for c in ast.walk(rb.node) if isinstance(c, ast.Call) and isinstance(c.func, ast.Attribute) and c.func.attr == 'split' and c.args
               and isinstance(c.args[0], ast.Constant) and isinstance(c.func.value, ast.Attribute) and c.func.value.attr == side]
+    # the same done with a regular expression: `PATTERN.findall(self.colN)` with PATTERN = [^<separators>]+ cuts a name at every separator character
+    from ..strctx import _const_pattern
+    for c in ast.walk(rb.node):
+        if isinstance(c, ast.Call) and isinstance(c.func, ast.Attribute) and c.func.attr in ('findall', 'finditer') and c.args \
+                and isinstance(c.args[-1], ast.Attribute) and c.args[-1].attr == side:
+            pat = None
+            if isinstance(c.func.value, ast.Name):
+                for mn in (rb.module, 'pydbml.parser.blueprints', 'pydbml.tools'):
+                    sym = idx.resolve(mn, c.func.value.id)
+                    if sym is not None and sym.kind == 'assign' and isinstance(sym.node, ast.Call) and norm(sym.node.func) in ('re.compile', 'compile') and sym.node.args \
+                            and isinstance(sym.node.args[0], ast.Constant):
+                        pat = sym.node.args[0].value
+                        break
+            elif norm(c.func.value) == 're' and len(c.args) == 2 and isinstance(c.args[0], ast.Constant):
+                pat = c.args[0].value
+            cons_r = f'{prefix}:{side}:names-cut-by-pattern'
+            if pat is None:
+                col.unk(rule, cons_r, f'the column names of {side} are taken with `{norm(c)[:60]}`; the pattern is not a literal this rule can read', node=c, file=rb.file)
+                continue
+            import re._parser as _sp
+            import re._constants as _sc
+            try:
+                tree = list(_sp.parse(pat))
+            except Exception:
+                tree = []
+            cut = None
+            if len(tree) == 1 and tree[0][0] is _sc.MAX_REPEAT and len(tree[0][1][2]) == 1 and tree[0][1][2][0][0] is _sc.IN \
+                    and tree[0][1][2][0][1] and tree[0][1][2][0][1][0][0] is _sc.NEGATE:
+                cut = set()
+                for kind, val in tree[0][1][2][0][1][1:]:
+                    if kind is _sc.LITERAL:
+                        cut.add(chr(val))
+                    elif kind is _sc.CATEGORY and val is _sc.CATEGORY_SPACE:
+                        cut |= set(' \t\n')
+                    else:
+                        cut = None
+                        break
+            if cut is None:
+                col.unk(rule, cons_r, f'the column names of {side} are taken with the pattern {pat!r}, which this rule cannot read as "runs of non-separators"', node=c, file=rb.file)
+            elif cut - set(',()'):
+                extra = ''.join(sorted(cut - set(',()')))
+                col.bad(rule, cons_r, f'the column names of {side} are the runs of characters outside {sorted(cut)!r} (pattern {pat!r}): a quoted column name that contains '
+                        f'{extra!r} - `"tax id"` - is cut into several names; the reference then links other columns than the one addressed, or fails with '
+                        f'ColumnNotFoundError although the column exists', node=c, file=rb.file)
+            else:
+                splits.append(c)            # cuts at `,` only: the same (known) limitation as the split form
     free_text = any(k.kind == 'quoted' for t in toks for k in gt.walk(t))
-    sep = splits[0].args[0].value if splits else None
+    sep = (splits[0].args[0].value if isinstance(splits[0].args[0], ast.Constant) else ',') if splits else None
     cons = f'{prefix}:{side}:split-of-quoted-name'
     if splits and not toks:
         col.unk(rule, cons, 'the endpoint tokens of the reference forms were not found in the grammar', node=splits[0], file=rb.file)
